@@ -21,12 +21,14 @@ def keepers(flavour, n):
     out.append(['search', {'alg': 'dfs', 'root': 0, 'target': None, 'mode': 'cycle', 'method': 'none', 'transpose': False, 'keep': 'r'}])
     out.append(['order', {'kind': 'pre', 'root': 0, 'mode': 'nodes', 'method': 'none', 'transpose': False, 'keep': 'r'}])
     out.append(['order', {'kind': 'post', 'root': 0, 'mode': 'edges', 'method': 'none', 'transpose': False, 'keep': 'r'}])
+    out.append(['search', {'alg': 'pfs', 'prio': 'min', 'root': 0, 'target': None, 'mode': 'path', 'method': 'none', 'transpose': False, 'keep': 'r'}])
+    out.append(['search', {'alg': 'pfs', 'prio': 'max', 'root': 0, 'target': 1, 'mode': 'search', 'method': 'none', 'transpose': False, 'keep': 'r'}])
     return out
 
 
 def scenarios(flavour, n, max_edges, full_orders, queries=False):
     for seq in canon_sequences(n, max_edges):
-        nodes = [[i, 100 + i] for i in range(n)]
+        nodes = [[i, 7 if queries else 100 + i] for i in range(n)]       # equal values: ties in pfs frontiers
         pre = [['connect', u, v, {'s': f'e{j}'}] for j, (u, v) in enumerate(seq)]
         for members in ((), (0, 1), tuple(range(n))):
             gsteps = ([['g_new']] + [['g_insert', i] for i in members]) if members else []
@@ -91,7 +93,7 @@ def evaluate(prop, scen, obs, ctx):
             holders.pop(('kept',), None)
         elif op == 'use_kept':
             for k, v, deg in o:
-                cs.append((EQ(v, 100 + k), f'node {k} reached through a kept search result answers value {v}', 'kept-unusable'))
+                cs.append((EQ(v, scen['nodes'][k][1]), f'node {k} reached through a kept search result answers value {v}', 'kept-unusable'))
         elif op == 'drops':
             live = set()
             for h in holders.values():
@@ -125,7 +127,7 @@ def run(prop, tier, seed):
     return scenario_check(
         prop, tier, seed, items, evaluate, sig_of,
         bounds={'nodes': 3, 'max_edges': 3 if tier == 'quick' else 4,
-                'queries_before_drops': 'variants in which every degree / predicate / lookup query runs on every node before the drops (<=2 edges, thorough 3)', 'handles': '3 node handles, optional container (members {0,1} or all), optional kept result of bfs path / dfs search / dfs cycle / preorder nodes / postorder edges',
+                'queries_before_drops': 'variants in which every degree / predicate / lookup query runs on every node before the drops (<=2 edges, thorough 3)', 'node_values': 'distinct, and all equal (value ties in priority-first frontiers) in the query variants', 'handles': '3 node handles, optional container (members {0,1} or all), optional kept result of bfs path / dfs search / dfs cycle / preorder nodes / postorder edges / pfs min path / pfs max search',
                 'drop_orders': 'rotations + reverse' if tier == 'quick' else 'rotations + reverse (<=4 edges), all permutations (<=2 edges)',
                 'outside': 'more handles per node; results of pfs and of filtered searches; drop during a running traversal'},
         assumptions=['Rc/Arc/Weak counting semantics as documented by std (strong/weak counts, value dropped when strong reaches 0)',
